@@ -528,6 +528,14 @@ func (i *Iterator) approximateEnd(ctx context.Context) (endApprox index.Distance
 	if i.internal.TimeRange().End.After(i.view.End) {
 		target := i.internal.TimeRange().Start.Range(i.view.End)
 		endApprox, _, err = i.idx.Distance(ctx, target, index.MustBeContinuous)
+		// The samples of a domain are always backed by a continuous run of the index, so
+		// if the index stops being continuous before the view ends, the view ends past the
+		// last sample of this domain (its time range can outlive the index domains that
+		// covered its tail once those were deleted) and every sample lies before it.
+		if errors.Is(err, index.ErrDiscontinuous) {
+			endApprox = index.DistanceApproximation{Approximation: index.Exactly(total)}
+			err = nil
+		}
 	}
 	return
 }
